@@ -32,7 +32,7 @@ theorem appendSlice_realloc {α} (k : Kind) (zero : α) (A : Arrays α) (s t : H
               (getArr A t.arr) s.len t.off t.len),
         hdr := { arr := A.length, off := 0, len := s.len + t.len,
                  cap := calculateNewCapacity (s.len + t.len) s.cap, isNil := false },
-        reusedElemObjects := k == .spine && decide (s.len > 0) } := by
+        reusedElemObjects := false } := by
   obtain ⟨h1, h2⟩ := hwf
   obtain ⟨h3, h4⟩ := htw
   have hn : t.len ≠ 0 := by omega
